@@ -491,8 +491,9 @@ def run_property(modname, tier, only=None, log=print):
                assumptions=getattr(mod, 'ASSUMPTIONS', []), wall_s=round(time.time() - t_begin, 1),
                violations=len(violations_out))
     if not only:
-        os.makedirs(os.path.join(VERIF, 'evidence'), exist_ok=True)
-        with open(os.path.join(VERIF, 'evidence', pid + '.json'), 'w') as f:
+        evdir = os.environ.get('SYMX_EVIDENCE_DIR') or os.path.join(VERIF, 'evidence')     # seed evaluation (tools/seed_try.sh) points this elsewhere
+        os.makedirs(evdir, exist_ok=True)
+        with open(os.path.join(evdir, pid + '.json'), 'w') as f:
             json.dump(evd, f, indent=1, default=str)
     # ---- verdict
     for key, d, n, w in known_hits:
